@@ -103,6 +103,14 @@ pub struct FsmExecutor {
     pub include_paths: Vec<PathBuf>,
 }
 
+/// The reader reports a non-conformant document by panicking. A session that invokes such a document
+/// runs the reader on its own thread and must survive it: turn the panic into an error result.
+#[cfg(feature = "xml")]
+fn catch_reader_panic<F: FnOnce() -> Result<Box<Fsm>, String>>(read: F) -> Result<Box<Fsm>, String> {
+    std::panic::catch_unwind(std::panic::AssertUnwindSafe(read))
+        .unwrap_or_else(|_| Err("Document rejected by the SCXML reader".to_string()))
+}
+
 impl FsmExecutor {
     pub fn add_processor(&mut self, processor: Box<dyn EventIOProcessor>) {
         self.state
@@ -216,7 +224,7 @@ impl FsmExecutor {
         if extension.eq_ignore_ascii_case("scxml") || extension.eq_ignore_ascii_case("xml") {
             #[cfg(feature = "Debug")]
             debug!("Loading FSM from XML {}", uri);
-            sm = scxml_reader::parse_from_uri(uri.to_string(), &self.include_paths);
+            sm = catch_reader_panic(|| scxml_reader::parse_from_uri(uri.to_string(), &self.include_paths));
         }
 
         #[cfg(feature = "serializer")]
@@ -272,7 +280,7 @@ impl FsmExecutor {
 
         // Use reader to parse the XML:
         #[cfg(feature = "xml")]
-        let sm = scxml_reader::parse_from_xml_with_includes(xml.to_string(), &self.include_paths);
+        let sm = catch_reader_panic(|| scxml_reader::parse_from_xml_with_includes(xml.to_string(), &self.include_paths));
         #[cfg(not(feature = "xml"))]
         let sm = Ok(Box::new(Fsm::new()));
 
